@@ -137,6 +137,16 @@ def examine(case):
     fam = family(event)
     out = []
     r = run_f(event, text, gender, prec)
+    if case.get('spelled_out'):
+        # the same call with the documented defaults spelled out (gender='all', prec=None, positional gender) and with the
+        # error class left out (then ValueError itself is the caller's class): same outcome
+        r2 = call(athlib.check_performance_for_discipline, event, text, gender, errorKlass=PrivateError, prec=prec)
+        r3 = call(athlib.check_performance_for_discipline, event, text, gender=gender, prec=prec)
+        if r2[:2] != r[:2]:
+            out.append(V('defaults-spelled-out', ['defaults', 'explicit-differs'], case, r2[:3], r[:3]))
+        if (r3[0] == 'ret') != (r[0] == 'ret') or (r3[0] == 'ret' and r3[1] != r[1]) or \
+                (r3[0] == 'exc' and r[1] == 'PrivateError' and r3[1] != 'ValueError'):
+            out.append(V('only-the-given-error', ['defaults', 'default-error-class'], case, r3[:3], r[:3]))
     if r[0] == 'exc':
         if r[1] != 'PrivateError':
             out.append(V('only-the-given-error', ['leak', r[1], '%s:%s' % r[3]], case, r[:3]))
@@ -385,6 +395,9 @@ def shard(ctx, payload):
     rng = random.Random(derive_seed(ctx.seed, 'C12', ctx.shard))
     for i in range(n):
         case = make_case(g, rng.randrange)
+        if i % 7 == 3:
+            case['spelled_out'] = True
+            ctx.label('defaults-spelled-out')
         do_case(ctx, case)
         if i % 5 == 0:
             for sib in siblings(case, rng.randrange):
